@@ -222,7 +222,10 @@ class Fitness:
 
         parameters = max_log_likelihood_sample.parameter_lists_for_model(model=self.model)
 
-        log_likelihood_new = fitness(parameters=parameters)
+        # The stored value is a log likelihood, so a log likelihood is recomputed: the figure of merit
+        # returned by calling the fitness may be a log posterior and / or a chi-squared instead.
+        instance = self.model.instance_from_vector(vector=parameters)
+        log_likelihood_new = fitness.log_likelihood_function(instance=instance)
 
         if not np.isclose(log_likelihood_old, log_likelihood_new):
             raise exc.SearchException(
